@@ -371,7 +371,7 @@ func runC01(c *core.Ctx) {
 	}
 
 	// ---- C01.level
-	if fn := c.Need("C01.level", "", "AlertNode", "determineLevel"); fn != nil {
+	if fn := needEither(c, "C01.level", "", []string{"alertState", "AlertNode"}, "determineLevel"); fn != nil {
 		cur := an.ParamName(fn.Decl.Type, 1)
 		searchKind := func(key string) string {
 			// key of a findFirstMatchLevel call result: …findFirstMatchLevel(start, stop, p).i
@@ -402,7 +402,7 @@ func runC01(c *core.Ctx) {
 				if k, ok := an.ErrNilAtom(info, a); ok && an.CallResultOf(k, "EvalPredicate", 1) {
 					return "rerr", true
 				}
-				if a.Op == token.EQL && a.R == "nil" && strings.HasSuffix(a.L, ".levelResets["+cur+"]") {
+				if a.Op == token.EQL && a.R == "nil" && strings.HasSuffix(a.L, "["+cur+"]") && c01ExprRole(c, a.L) == "levelResets" {
 					return "reset", true
 				}
 				if an.CallResultOf(a.Key, "EvalPredicate", 0) {
@@ -453,7 +453,7 @@ func runC01(c *core.Ctx) {
 					}
 				}
 				if ev.Name == "EvalPredicate" && len(ev.Args) == 3 {
-					c.Check(strings.HasSuffix(ev.Args[0], ".levelResets["+cur+"]") && strings.HasSuffix(ev.Args[1], ".lrScopePools["+cur+"]"), "C01.level", "AlertNode.determineLevel#reset-expr", ev.Pos,
+					c.Check(strings.HasSuffix(ev.Args[0], "["+cur+"]") && c01ExprRole(c, ev.Args[0]) == "levelResets" && strings.HasSuffix(ev.Args[1], ".lrScopePools["+cur+"]"), "C01.level", "AlertNode.determineLevel#reset-expr", ev.Pos,
 						"the reset expression and its scope pool must be those of the current level, are %s / %s", ev.Args[0], ev.Args[1])
 				}
 			}
@@ -461,7 +461,7 @@ func runC01(c *core.Ctx) {
 	}
 
 	// ---- C01.match
-	if fn := c.Need("C01.match", "", "AlertNode", "findFirstMatchLevel"); fn != nil {
+	if fn := needEither(c, "C01.match", "", []string{"alertState", "AlertNode"}, "findFirstMatchLevel"); fn != nil {
 		eng := &an.Engine{Prog: c.P,
 			TrackCall: func(call *ast.CallExpr, callee *types.Func) string {
 				if callee != nil && callee.Name() == "EvalPredicate" {
@@ -495,10 +495,9 @@ func runC01(c *core.Ctx) {
 				c.Check(good, "C01.match", "AlertNode.findFirstMatchLevel#match-needs-pass", p.RetPos, "a match is reported on a path where the level's expression did not evaluate to true without error: [%s]", p.Cond())
 				if ev != nil && len(ev.Args) == 3 {
 					// n.levels[l] evaluated with n.scopePools[l]; returned level is that l
-					i := strings.Index(ev.Args[0], ".levels[")
 					lv := ""
-					if i >= 0 {
-						lv = strings.TrimSuffix(ev.Args[0][i+len(".levels["):], "]")
+					if i := strings.LastIndex(ev.Args[0], "["); i >= 0 && c01ExprRole(c, ev.Args[0]) == "levels" {
+						lv = strings.TrimSuffix(ev.Args[0][i+1:], "]")
 					}
 					good := lv != "" && strings.HasSuffix(ev.Args[1], ".scopePools["+lv+"]") && (p.Rets[0] == lv || p.Rets[0] == "alert.Level("+lv+")")
 					c.Check(good, "C01.match", "AlertNode.findFirstMatchLevel#same-level", p.RetPos, "expression %s, scope pool %s and returned level %s must belong to one level", ev.Args[0], ev.Args[1], p.Rets[0])
@@ -925,4 +924,97 @@ func c01Flap(c *core.Ctx, info *types.Info) {
 			}
 			return ""
 		}})
+}
+
+// needEither: the anchor function on the first receiver type that declares it (a method may move between the node and
+// its per-group state without changing what the rule decides).
+func needEither(c *core.Ctx, rule, rel string, recvs []string, name string) *core.Func {
+	for _, r := range recvs[:len(recvs)-1] {
+		if c.P.FindFunc(rel, r, name) != nil {
+			return c.Need(rule, rel, r, name)
+		}
+	}
+	return c.Need(rule, rel, recvs[len(recvs)-1], name)
+}
+
+// c01ExprRole: which node-level expression table ("levels" or "levelResets") the key X.F[i] reads: F is that table
+// itself, or a per-group field that newAlertState fills with an index-preserving CopyReset copy of it.
+func c01ExprRole(c *core.Ctx, key string) string {
+	i := strings.LastIndex(key, "[")
+	if i < 0 {
+		return ""
+	}
+	base := key[:i]
+	f := base[strings.LastIndex(base, ".")+1:]
+	if f == "levels" && strings.HasSuffix(base, ".n.levels") || f == "levelResets" {
+		return f
+	}
+	if src := c01PerGroupSources(c)[f]; src != "" {
+		return src
+	}
+	if f == "levels" {
+		return f
+	}
+	return ""
+}
+
+var c01SrcCache map[string]string
+
+// c01PerGroupSources: alertState field → AlertNode field it copies, read from the literal in newAlertState
+// (`f: helper(n.X)` where helper CopyResets every element of its parameter into the same index).
+func c01PerGroupSources(c *core.Ctx) map[string]string {
+	if c01SrcCache != nil {
+		return c01SrcCache
+	}
+	c01SrcCache = map[string]string{}
+	fn := c.P.FindFunc("", "AlertNode", "newAlertState")
+	if fn == nil {
+		return c01SrcCache
+	}
+	info := fn.Pkg.TypesInfo
+	ast.Inspect(fn.Decl.Body, func(n ast.Node) bool {
+		kv, ok := n.(*ast.KeyValueExpr)
+		if !ok {
+			return true
+		}
+		call, ok := kv.Value.(*ast.CallExpr)
+		if !ok || len(call.Args) != 1 {
+			return true
+		}
+		g := core.Callee(info, call)
+		if g == nil || !c06CopyOnlyParam(c, info, g, 0) || !c01IndexPreserving(c, info, g) {
+			return true
+		}
+		if sel, ok := call.Args[0].(*ast.SelectorExpr); ok && (an.FieldSel(info, sel, "AlertNode", "levels") || an.FieldSel(info, sel, "AlertNode", "levelResets")) {
+			c01SrcCache[types.ExprString(kv.Key)] = sel.Sel.Name
+		}
+		return true
+	})
+	return c01SrcCache
+}
+
+// c01IndexPreserving: g stores the copy of element i at index i of what it returns (`out[i] = e.CopyReset()` with i, e of one range).
+func c01IndexPreserving(c *core.Ctx, info *types.Info, g *types.Func) bool {
+	d := declOfFunc(c.P, g)
+	if d == nil {
+		return false
+	}
+	ok := false
+	ast.Inspect(d.Decl.Body, func(n ast.Node) bool {
+		rs, isR := n.(*ast.RangeStmt)
+		if !isR || rs.Key == nil || rs.Value == nil {
+			return true
+		}
+		k, v := types.ExprString(rs.Key), types.ExprString(rs.Value)
+		ast.Inspect(rs.Body, func(m ast.Node) bool {
+			if as, isA := m.(*ast.AssignStmt); isA && len(as.Lhs) == 1 && len(as.Rhs) == 1 {
+				if ix, isI := as.Lhs[0].(*ast.IndexExpr); isI && types.ExprString(ix.Index) == k && types.ExprString(as.Rhs[0]) == v+".CopyReset()" {
+					ok = true
+				}
+			}
+			return true
+		})
+		return true
+	})
+	return ok
 }
